@@ -503,7 +503,7 @@ var composeCtx = []string{
 	"%", "( % )", "(%)", "x $(%)", "{ %; }", "if %; then a; fi", "if a; then %; fi", "if a; then b; else %; fi",
 	"while %; do a; done", "until a; do %; done", "f() { %; }", "a | %", "% | a", "% && b", "b || %",
 	"for i in a; do %; done", "case x in a) % ;; esac", "case x in (a) % ;; esac", "case x in (a|b) c ;; d) % ;; esac",
-	"% &", "x=$(%)", "( % ) >f", "{ %; } 2>&1", "a; %", "%; a", "a <<E; %\nx\nE\n", "{ %\n}",
+	"% &", "x `%`", "x=$(%)", "( % ) >f", "{ %; } 2>&1", "a; %", "%; a", "a <<E; %\nx\nE\n", "{ %\n}",
 }
 
 var composeInner = []string{
@@ -550,10 +550,20 @@ func c02Compose(levels int) {
 			nd.Assume(false) // "((" would spell the arithmetic command
 		}
 	}
+	for i := 0; i < len(ctx); i++ {
+		if ctx[i] == '`' {
+			for j := 0; j < len(x); j++ {
+				if x[j] == '`' {
+					nd.Assume(false) // backquotes do not nest textually
+				}
+			}
+			break
+		}
+	}
 	body := ""
 	if len(x) > 3 && x[len(x)-3:] == "<<F" {
 		// the body of the inner here-document follows the line it stands on
-		if hasNL(ctx) || hasSubst(ctx) {
+		if hasNL(ctx) || hasSubst(ctx) || hasBquote(ctx) {
 			nd.Assume(false)
 		}
 		body = "\n$y\nF\n"
@@ -637,3 +647,12 @@ func replaceOnce(s, old, new string) string {
 
 func C02_Compose1() { c02Compose(1) }
 func C02_Compose2() { c02Compose(2) }
+
+func hasBquote(s string) bool {
+	for i := 0; i < len(s); i++ {
+		if s[i] == '`' {
+			return true
+		}
+	}
+	return false
+}
